@@ -894,9 +894,10 @@ func KnownBits(t *Term) kb {
 func umin(t *Term) uint64 { return KnownBits(t).one }
 func umax(t *Term) uint64 { return ^KnownBits(t).zero & mask(t.S.W) }
 
-// selectsIn returns the select-on-input-array terms in the DAG of ts.
-func (ts *TermStore) selectsIn(roots []*Term) []*Term {
+// selectsIn returns the select-on-input-array terms and the variables in the DAG of roots.
+func (ts *TermStore) selectsIn(roots []*Term) ([]*Term, map[*Term]bool) {
 	seen := map[int]bool{}
+	vars := map[*Term]bool{}
 	var out []*Term
 	var st []*Term
 	st = append(st, roots...)
@@ -910,7 +911,10 @@ func (ts *TermStore) selectsIn(roots []*Term) []*Term {
 		if t.Op == "select" && t.Args[0].Op == "var" {
 			out = append(out, t)
 		}
+		if t.Op == "var" {
+			vars[t] = true
+		}
 		st = append(st, t.Args...)
 	}
-	return out
+	return out, vars
 }
